@@ -465,6 +465,7 @@ func runC07(cx *Ctx, r *Report) {
 	// completed: who may write BatchState := COMPLETED (rule shared with C08)
 	cx.batchCompletedWriters(r, per)
 	cx.scanPrefixClosedRule(r, []string{"service"}, "scan-prefix-closed")
+	cx.insufficientStrict(r, "service")
 	cx.keyEncodingUniformRule(r, []string{"service"}, "key-encoding-uniform")
 	r.requireCount("issue-after-charge", 1)
 	r.requireCount("deposit-double-entry", 4)
